@@ -411,6 +411,17 @@ pub fn gen_write(rng: &mut Rng, count: usize, thorough: bool, out: &mut Vec<Stri
                 _ => 0,
             };
         }
+        // a refused operation in the history (duplicate type, or any add after sealing) must not change
+        // what any serialisation path produces
+        if rng.chance(1, 3) {
+            if let Some(first) = ops.iter().find(|o| o.starts_with("r/") || o.starts_with("ro/")).cloned() {
+                ops.push(first);
+            } else {
+                ops.push("r/8022/6162".into());
+                ops.push("r/8022/63".into());
+                est += 8;
+            }
+        }
         let has_typed = ops.iter().any(|o| o.starts_with("a/"));
         ops.push("q/-/-".into());
         let fill = *rng.pick(&["aa", "ff", "00"]);
